@@ -428,3 +428,15 @@ Proof.
   intros s r i Hi. destruct (all_asg_nth (nlevels s) i Hi) as [a [E A]]. exists a. split; [|exact A].
   unfold td_vtable. apply (map_nth_error (td_value s r)). exact E.
 Qed.
+
+(** the table in one statement *)
+Theorem td_vtable_shape : forall s r, TdOK s -> ref_ok s r ->
+  length (td_vtable s r) = 3 ^ nlevels s /\ ~ In None (td_vtable s r) /\
+  (forall av, td_value s r av = Some (tfun_of s r av)) /\
+  forall i, i < 3 ^ nlevels s ->
+    exists a, nth_error (td_vtable s r) i = Some (td_value s r a) /\
+              forall v, a v = if Nat.ltb v (nlevels s) then tri_of_digit ((i / 3 ^ v) mod 3) else TT.
+Proof.
+  intros s r B Hr. split; [apply td_vtable_length|]. split; [apply (td_vtable_total s r B Hr)|].
+  split; [apply (td_value_tfun s r B Hr) | apply td_vtable_nth].
+Qed.
